@@ -53,7 +53,10 @@ class UntypedAtomic(AnyAtomicType):
             case bool():
                 self.value = 'true' if value else 'false'
             case float():
-                self.value = str(value).rstrip('0').rstrip('.')
+                mantissa, sep, exponent = str(value).partition('e')
+                if '.' in mantissa:
+                    mantissa = mantissa.rstrip('0').rstrip('.')
+                self.value = mantissa + sep + exponent
             case Decimal():
                 self.value = str(value.normalize())
             case UntypedAtomic():
